@@ -123,6 +123,13 @@ theorem convertExpr_noFault (e : AExpr) (h : e.NumsOk) : (convertExpr e).NoFault
   | floor e ih => simp only [convertExpr]; exact noFault_bind_pure _ (ih h)
   | other => trivial
 
+theorem convertItem_noFault (it : SelItem) (h : it.NumsOk) : (convertItem it).NoFault := by
+  cases it with
+  | unnamed e d => exact noFault_bind_pure _ (convertExpr_noFault e h)
+  | aliased e a => exact noFault_bind_pure _ (convertExpr_noFault e h)
+  | wildcard => trivial
+  | other => trivial
+
 theorem getProjection_noFault (items : List SelItem) (h : ∀ it ∈ items, it.NumsOk) :
     (getProjection items).NoFault := by
   induction items with
@@ -130,21 +137,13 @@ theorem getProjection_noFault (items : List SelItem) (h : ∀ it ∈ items, it.N
   | cons it rest ih =>
     have hit : it.NumsOk := h it (List.mem_cons_self)
     have hrest := ih (fun x hx => h x (List.mem_cons_of_mem _ hx))
-    cases it with
-    | unnamed e d =>
-      simp only [getProjection]
-      exact Res.noFault_bind (convertExpr_noFault e hit) fun _ _ =>
-        Res.noFault_bind (by trivial) fun _ _ => noFault_bind_pure _ hrest
-    | aliased e a =>
-      simp only [getProjection]
-      exact Res.noFault_bind (convertExpr_noFault e hit) fun _ _ =>
-        Res.noFault_bind (by trivial) fun _ _ => noFault_bind_pure _ hrest
-    | wildcard =>
-      simp only [getProjection]
-      exact Res.noFault_bind (by trivial) fun _ _ => noFault_bind_pure _ hrest
-    | other =>
-      simp only [getProjection]
-      exact Res.noFault_bind (by trivial) fun _ _ => noFault_bind_pure _ hrest
+    simp only [getProjection]
+    exact Res.noFault_bind (convertItem_noFault it hit) fun _ _ => noFault_bind_pure _ hrest
+
+theorem getFilter_noFault (sel : Option AExpr) (h : ∀ e, sel = some e → e.NumsOk) : (getFilter sel).NoFault := by
+  cases sel with
+  | none => trivial
+  | some e => exact convertExpr_noFault e (h e rfl)
 
 theorem getOrderByList_noFault (es : List (AExpr × Option Bool)) (h : ∀ p ∈ es, p.1.NumsOk) :
     (getOrderByList es).NoFault := by
@@ -190,5 +189,76 @@ theorem getQueryComponents_fields (q : AQuery) (c : Components) (h : getQueryCom
     repeat' split at h
     all_goals (cases h)
     all_goals (refine ⟨s, hs, rfl, rfl, ?_⟩; simp [*])
+
+theorem getProjection_length (items : List SelItem) (cis : List ColumnInfo) (h : getProjection items = .ok cis) :
+    cis.length = items.length := by
+  induction items generalizing cis with
+  | nil => simp [getProjection] at h; subst h; rfl
+  | cons it rest ih =>
+    simp only [getProjection] at h
+    cases hit : convertItem it with
+    | err e => rw [hit] at h; simp at h
+    | fault f => rw [hit] at h; simp at h
+    | ok ci =>
+      rw [hit] at h
+      simp only [Res.ok_bind] at h
+      cases hr : getProjection rest with
+      | err e => rw [hr] at h; simp at h
+      | fault f => rw [hr] at h; simp at h
+      | ok cs =>
+        rw [hr] at h
+        simp at h
+        subst h
+        simp [ih cs hr]
+
+/-- The select list of the parsed query is the converted projection of the statement. -/
+theorem parseQuery_select (q : AQuery) (qq : Query) (h : parseQuery (.stmts [.query q]) = .ok qq) :
+    ∃ c, getQueryComponents q = .ok c ∧ getProjection c.projection = .ok qq.select := by
+  simp only [parseQuery, List.length_singleton, Nat.lt_irrefl, if_false, List.getLast?_singleton] at h
+  cases hc : getQueryComponents q with
+  | err e => rw [hc] at h; simp at h
+  | fault f => rw [hc] at h; simp at h
+  | ok c =>
+    rw [hc] at h
+    simp only [Res.ok_bind] at h
+    cases hp : getProjection c.projection with
+    | err e => rw [hp] at h; simp at h
+    | fault f => rw [hp] at h; simp at h
+    | ok cis =>
+      rw [hp] at h
+      simp only [Res.ok_bind] at h
+      refine ⟨c, rfl, ?_⟩
+      cases ht : getTableName c.relation with
+      | err e => rw [ht] at h; simp at h
+      | fault f => rw [ht] at h; simp at h
+      | ok tbl =>
+        rw [ht] at h
+        simp only [Res.ok_bind] at h
+        cases hf : getFilter c.selection with
+        | err e => rw [hf] at h; simp at h
+        | fault f => rw [hf] at h; simp at h
+        | ok flt =>
+          rw [hf] at h
+          simp only [Res.ok_bind] at h
+          cases ho : getOrderBy c.orderBy with
+          | err e => rw [ho] at h; simp at h
+          | fault f => rw [ho] at h; simp at h
+          | ok ob =>
+            rw [ho] at h
+            simp only [Res.ok_bind] at h
+            cases hl : getLimit c.limit with
+            | err e => rw [hl] at h; simp at h
+            | fault f => rw [hl] at h; simp at h
+            | ok l =>
+              rw [hl] at h
+              simp only [Res.ok_bind] at h
+              cases hoff : getOffset c.offset with
+              | err e => rw [hoff] at h; simp at h
+              | fault f => rw [hoff] at h; simp at h
+              | ok o =>
+                rw [hoff] at h
+                simp at h
+                subst h
+                exact hp
 
 end LM.Norm
